@@ -239,14 +239,19 @@ nni_listener_init(nni_listener *l, nni_sock *s, nni_sp_tran *tran)
 
 	rv = l->l_ops.l_init(lp, &l->l_url, l);
 
-	if (rv == 0) {
-		rv = nni_sock_add_listener(s, l);
-	}
-
+	// Get the id first: once the listener is on the socket's list a
+	// failure here could no longer be undone by just destroying it.
 	if (rv == 0) {
 		nni_mtx_lock(&listeners_lk);
 		rv = nni_id_alloc32(&listeners, &l->l_id, l);
 		nni_mtx_unlock(&listeners_lk);
+	}
+
+	if ((rv == 0) && ((rv = nni_sock_add_listener(s, l)) != 0)) {
+		nni_mtx_lock(&listeners_lk);
+		nni_id_remove(&listeners, l->l_id);
+		nni_mtx_unlock(&listeners_lk);
+		l->l_id = 0;
 	}
 
 	if (rv == 0) {
